@@ -1,5 +1,5 @@
 """Bastion family (Bastion.tla): C10 (endpoint protocol), C11 (body / proof formats), C19 (totality)."""
-import json, random, os, re
+import json, re, random, os
 from vlib import *
 import seqfam
 from seqfam import consts, params_of, FORKS
@@ -55,6 +55,61 @@ def rate_runs():
     return runs
 
 
+def bastion_part(work, rep, tier, seed, prop):
+    """The witness seen through the add-checkpoint endpoint, for the properties that are about the witness but that callers experience there
+    (C03 refusals change nothing, C08 the honest next step is accepted whatever came before, C09 first matching rule): long series of refused
+    requests of every kind followed by honest steps; checkpoints carrying lines under the witness' own key id; consistency proofs of 62 and 63
+    hashes (the longest the protocol permits). In process (handler as FeedBastion builds it) on two stores; judged by Trace_Bastion."""
+    build_driver()
+    E = {"k": "empty"}
+    def ok(old, b, n, pf, **kw):
+        return {"op": "post", "kind": "ok", "log": "l1", "req": dict({"auth": "good", "old": old, "b": b, "n": n, "extra": 0, "stale": 0, "ext": 0, "pf": pf}, **kw)}
+    def bad(kind):
+        return {"op": "post", "kind": kind, "log": "l1"}
+    R12, R23, R13 = {"k": "right", "b": 0, "m": 1, "n": 2}, {"k": "right", "b": 0, "m": 2, "n": 3}, {"k": "right", "b": 0, "m": 1, "n": 3}
+    junk = [bad(k_) for k_ in MALFORMED] + [bad("unknown-origin")]
+    refused = junk * 8 + [ok(0, 0, 1, E), ok(3, 0, 2, E), ok(1, 0, 2, {"k": "bad", "kind": "flip"}), ok(1, 0, 2, E, auth="badsig"), ok(1, 1, 1, E, auth="nosig")] * 3
+    runs = [
+        {"id": "ep-refusals-then-honest", "limit": 100000, "steps": [ok(0, 0, 1, E)] + refused + [ok(1, 0, 2, R12), ok(2, 0, 2, E)] + junk * 5 + [ok(2, 0, 3, R23)]},
+        {"id": "ep-refusals-first", "limit": 100000, "steps": junk * 9 + [ok(0, 0, 1, E), ok(1, 0, 3, R13)]},
+        {"id": "ep-own-key-lines", "limit": 100000, "steps": [ok(0, 0, 1, E, stale=1), ok(1, 0, 1, E, stale=1), ok(1, 0, 2, R12, stale=1), ok(2, 0, 2, E), ok(1, 0, 2, R12, stale=1),
+                                                             ok(2, 0, 3, R23, stale=1, ext=1), ok(3, 0, 3, E, stale=1, extra=1)]},
+    ]
+    c = bconsts("quick", Stales={0, 1})
+    tp = work.path("ep.ndjson")
+    open(tp, "w").close()
+    def go(runs_, params, tag):
+        rp = work.path("ep-%s.jsonl" % tag)
+        write_runs(rp, params, runs_)
+        for st in ("inmem", "sqlmem"):
+            part = work.path("ep-part.ndjson")
+            o, dt = run_driver(["bastion", "-in", rp, "-out", part, "-store", st, "-embed", "id", "-seed", str(seed), "-workers", str(NCPU), "-dir", work.sub("db")])
+            rep.notes.append("endpoint/" + o.strip())
+            with open(tp, "a") as out:
+                out.write(open(part).read())
+            os.remove(part)
+    go(runs, params_of(c), "a")
+    # the same through the handler exactly as the real FeedBastion constructs it (whatever it sets up besides the limiter is in place): the witness
+    # side runs FeedBastion in a child process and dials a stub bastion
+    rp_e, rt_e = work.path("ep-e2e.jsonl"), work.path("ep-e2e.ndjson")
+    write_runs(rp_e, params_of(c), runs)
+    o, dt = run_driver(["bastion-e2e", "-in", rp_e, "-out", rt_e, "-dir", work.sub("db"), "-seed", str(seed)], timeout=3000)
+    rep.notes.append("endpoint/" + o.strip())
+    with open(tp, "a") as out:
+        out.write(open(rt_e).read())
+    # proofs of 62 and 63 hashes: sizes 3 -> 2^61+5 -> 2^62 (and the refusals that come with such a proof)
+    big = dict(params_of(c), Sigma=[0, 3, (1 << 61) + 5, 1 << 62])
+    go([{"id": "ep-longest-proofs", "limit": 100000, "steps": [ok(0, 0, 1, E), ok(0, 0, 2, R12), ok(1, 0, 2, {"k": "bad", "kind": "flip"}), ok(1, 0, 2, R12), ok(1, 0, 3, R13), ok(2, 0, 3, R23)]},
+        {"id": "ep-longest-proofs-2", "limit": 100000, "steps": [ok(0, 0, 1, E), ok(1, 0, 3, R13), ok(1, 0, 3, R13)]}], big, "b")
+    events = read_ndjson(tp)
+    fails = bastion_judge(work, rep, c, tp, name="judge-endpoint")
+    seqfam.settle(rep, prop, fails, events, c)
+    posts = [e for e in events if e["e"] == "post"]
+    rep.cov["evaluations"] += len(posts)
+    rep.cov["requests_through_the_endpoint"] = len(posts)
+    rep.cov["longest_proof_through_the_endpoint"] = max([int(m.group(1)) for e in posts for m in [re.search(r"proof=(\d+)", e.get("conc", ""))] if m] or [0])
+
+
 def c10(work, tier, seed, replay):
     rep = Report("C10", tier, seed, "model_checking")
     rng = random.Random(seed)
@@ -76,7 +131,8 @@ def c10(work, tier, seed, replay):
         loud = [e for e in es if e["act"]["status"] == 200]
         for j in range(0, len(quiet), 120):
             n += 1
-            runs.append({"id": "b%d" % n, "limit": 100000, "steps": setup + [post_step(e["act"]) for e in quiet[j:j + 120]]})
+            # ... and after the series of refusals one request that must be accepted (refusals must not use anything up)
+            runs.append({"id": "b%d" % n, "limit": 100000, "steps": setup + [post_step(e["act"]) for e in quiet[j:j + 120]] + ([post_step(loud[0]["act"])] if loud else [])})
         for e in loud:
             n += 1
             runs.append({"id": "b%d" % n, "limit": 100000, "steps": setup + [post_step(e["act"])]})
@@ -125,6 +181,17 @@ def c10(work, tier, seed, replay):
     with open(tp, "a") as out:
         out.write(open(et).read())
     rep.cov["end_to_end_runs"] = len(e2e)
+    # the rate limiter as the real FeedBastion (and the production binary's flag) builds it: configured rate 0 (nothing may be served, not even the
+    # first request) and rate 1 (burst 1)
+    rl = [r_ for r_ in runs if r_["id"].startswith("rate0") or r_["id"].startswith("rate1")]
+    for lim, pref, extra in ((0, "rate0", []), (1, "rate1", []), (0, "rate0", ["-prod", build_prod_binary()])):
+        rp_, rt_ = work.path("e2e-rate.jsonl"), work.path("e2e-rate.ndjson")
+        sel = [dict(r_, id=r_["id"] + ("-prod" if extra else "")) for r_ in rl if r_["id"].startswith(pref)][:2 if lim == 0 else 1]       # (the limiter lives as long as the witness side: one rate-1 run per start)
+        write_runs(rp_, params_of(c), sel)
+        o, dt = run_driver(["bastion-e2e", "-in", rp_, "-out", rt_, "-dir", work.sub("db"), "-seed", str(seed), "-limit", str(lim)] + extra, timeout=3000)
+        rep.notes.append("rate %d end to end%s: %s" % (lim, " (production binary)" if extra else "", o.strip()))
+        with open(tp, "a") as out:
+            out.write(open(rt_).read())
     # the same, with the PRODUCTION BINARY on the witness side (cmd/omniwitness --db_file --bastion_addr ...: flags, key files, SQLite, omniwitness.Main)
     if prod_e2e:
         pp, pt = work.path("e2e-prod-runs.jsonl"), work.path("e2e-prod.ndjson")
